@@ -318,7 +318,7 @@ func engineModel(isD, fullCfg bool, maxAdds int) *c12Model {
 			}
 			return &engine64{e: clipper.NewClipper64(), cfgs: cfgs}
 		},
-		refOp: func(op int) int { return 5 + ((op-5)/3)*3 },
+		refOp:      func(op int) int { return 5 + ((op-5)/3)*3 },
 		coordScale: map[bool]int64{false: 1, true: 100}[isD],
 	}
 }
@@ -398,8 +398,8 @@ func offsetModel(maxAdds int) *c12Model {
 	}
 	return &c12Model{name: "ClipperOffset", ops: ops, isAdd: isAdd, maxAdds: maxAdds,
 		inputs: append([]Paths{c12Junk}, edges...), edges: edges,
-		fresh:  func() c12Machine { return &offsetMachine{co: clipper.NewClipperOffset(2, 0.25, false, false)} },
-		refOp:  func(op int) int { n := len(c12OffAdds); return n + ((op-n)/3)*3 },
+		fresh: func() c12Machine { return &offsetMachine{co: clipper.NewClipperOffset(2, 0.25, false, false)} },
+		refOp: func(op int) int { n := len(c12OffAdds); return n + ((op-n)/3)*3 },
 	}
 }
 
@@ -407,12 +407,12 @@ func offsetModel(maxAdds int) *c12Model {
 
 type c12Result struct {
 	states, transitions, execTransitions, orderOnly uint64
-	maxDepth                                       int
-	closed                                         bool // no new state at the last level
-	viol                                           []drv.Violation
-	replays                                        []any
-	samples                                        []any
-	distinctOut                                    map[string]bool
+	maxDepth                                        int
+	closed                                          bool // no new state at the last level
+	viol                                            []drv.Violation
+	replays                                         []any
+	samples                                         []any
+	distinctOut                                     map[string]bool
 }
 
 func (md *c12Model) histNames(h []int) []string {
